@@ -193,6 +193,9 @@ class Report:
               % (self.prop, self.tier, self.units, self.paths, self.obligations, self.discharged,
                  len(self.inconclusive), len(self.violations), len(self.known_hits), self.queries,
                  self.solver_s, wall))
+        if self.obligations == 0 and not self.harness_errors:
+            self.harness_errors.append('no obligation was generated (vacuous run)')
+            print('HARNESS-ERROR property=%s no obligation was generated' % self.prop, file=sys.stderr)
         if self.violations:
             return EXIT_VIOLATION          # a replayed violation stands even if another unit had a harness problem
         if self.harness_errors:
